@@ -51,6 +51,7 @@ StateMatches(p) ==
   /\ p.interactive = interactive'
   /\ { <<k[1], ValOf(k[2])>> : k \in ToSet(p.consts) } = { <<k.name, k.val>> : k \in consts' }
   /\ ToSet(p.singles) = { s.key : s \in singles' }
+  /\ ToSet(p.imports) = imports'
 
 ResultMatches ==
   /\ out'.status = Ev.status
@@ -76,6 +77,8 @@ TStep ==
        [] Ev.op = "UnlockExit" -> UnlockExit(Ev.byException)
        [] Ev.op = "DefineConstant" -> DefineConstant(Ev.name, ValOf(Ev.val), Ev.valid)
        [] Ev.op = "SetInteractive" -> SetInteractive(Ev.on)
+       [] Ev.op = "ParseImport" -> ParseImport(Ev.module)
+       [] Ev.op = "SingletonDirect" -> SingletonDirect(Ev.key) /\ out'.fresh = Ev.fresh
        [] OTHER -> FALSE
   /\ ResultMatches
   /\ StateMatches(Ev.post)
@@ -83,7 +86,7 @@ TStep ==
 TInit == /\ tid \in 1..Len(Traces) /\ l = 1
          /\ reg = { ConfOf(d) : d \in ToSet(Traces[tid].reg) }
          /\ cfg = <<>> /\ stack = << <<>> >> /\ okeys = {} /\ oper = {}
-         /\ locked = FALSE /\ usaved = <<>> /\ interactive = FALSE /\ singles = {} /\ consts = {} /\ hooks = <<>>
+         /\ locked = FALSE /\ usaved = <<>> /\ interactive = FALSE /\ singles = {} /\ consts = {} /\ hooks = <<>> /\ imports = {}
          /\ out = NoOut
 TSpec == TInit /\ [][TStep]_tvars
 Progress == TLCSet(100 + tid, IF TLCGet(100 + tid) > l THEN TLCGet(100 + tid) ELSE l)
